@@ -65,7 +65,7 @@ async fn run_case(addr: SocketAddr, certs: &Certs, t: &[&str], seed: u64) -> any
             let mut got: Vec<String> = vec![];
             let mut errs = 0usize;
             loop {
-                match tokio::time::timeout(Duration::from_millis(if got.len() >= n { 60 } else if class.starts_with('X') { 2500 } else { 350 }), sub.next()).await {
+                match tokio::time::timeout(Duration::from_millis(if got.len() >= n { 60 } else if class.starts_with('X') || class.starts_with('Z') { 2500 } else { 350 }), sub.next()).await {
                     Err(_) => break,
                     Ok(None) => break,
                     Ok(Some(Ok(v))) => got.push($from(v)),
@@ -132,6 +132,10 @@ pub fn run(cfg: &Cfg) {
             cases.push(format!("pp string {algo} 4:60000 6 Z400000 y"));
         }
         cases.push("pp bytes zstd:bal - 3 Z1048000 y".into());
+        // a subscriber that only starts reading after the publisher has sent more than its stream window holds, while
+        // the publisher stays connected and silent: the tail must still be flushed to it
+        cases.push("pp string - - 3 Z600000 n".into());
+        cases.push("pp bytes - - 5 Z400000 n".into());
         for _ in 0..cfg.n(0, 400) {
             let all = crate::codec::algos();
             let algo = if r.chance(1, 4) { "-".to_string() } else { r.pick(&all).clone() };
